@@ -1371,7 +1371,10 @@ class _ChildLessNode(NodeBase):
 
     @property
     def depth(self) -> int:
-        return cast("TagNode", self.parent).depth + 1
+        parent = self.parent
+        if parent is None:
+            return 0
+        return cast("TagNode", parent).depth + 1
 
     @property
     def document(self) -> Optional[Document]:
